@@ -50,6 +50,7 @@ type thread struct {
 	obj     *LockState
 	site    uintptr
 	nspawn  int
+	chain   string // call chain of the pending operation (part of the point signature)
 	pending bool // resumed, has not parked/finished since
 }
 
@@ -119,6 +120,26 @@ func siteName(pc uintptr) string {
 	return name
 }
 
+var chainCache sync.Map
+
+func chainName(pcs []uintptr) string {
+	if len(pcs) == 0 {
+		return "-"
+	}
+	key := [5]uintptr{}
+	copy(key[:], pcs)
+	if v, ok := chainCache.Load(key); ok {
+		return v.(string)
+	}
+	parts := make([]string, len(pcs))
+	for i, pc := range pcs {
+		parts[i] = siteName(pc)
+	}
+	name := strings.Join(parts, "<")
+	chainCache.Store(key, name)
+	return name
+}
+
 func goid() int64 {
 	var buf [64]byte
 	b := buf[:runtime.Stack(buf[:], false)]
@@ -154,8 +175,9 @@ func Point(kind Kind, obj *LockState) int {
 		s.mu.Unlock()
 		return Outsider
 	}
-	var pcs [1]uintptr
-	runtime.Callers(3, pcs[:])
+	var pcs [5]uintptr
+	nf := runtime.Callers(3, pcs[:])
+	t.chain = chainName(pcs[:nf])
 	if Trace {
 		var tp [6]uintptr
 		n := runtime.Callers(3, tp[:])
@@ -393,7 +415,11 @@ func (x *Exec) Run() {
 			p.Enabled = append(p.Enabled, t.id)
 			p.Names = append(p.Names, t.name)
 			p.Sites = append(p.Sites, t.site)
-			fmt.Fprintf(&sig, "%s:%s@%s ", t.name, t.kind, siteName(t.site))
+			if t.kind == KStart {
+				fmt.Fprintf(&sig, "%s:start ", t.name)
+			} else {
+				fmt.Fprintf(&sig, "%s:%s@%s ", t.name, t.kind, t.chain)
+			}
 		}
 		if sinceLast > 0 {
 			fmt.Fprintf(&sig, "after %d time steps", sinceLast)
